@@ -425,3 +425,22 @@ let () = register "clinewline" (fun _ -> obs "clinewline local=ok remote=ok")
 
 (* cliabort: a client that went away; nothing to predict but that the run goes on *)
 let () = register "cliabort" (fun _ -> obs "cliabort done")
+
+(* cligenheld: generate holds the file it creates for the whole command.  (Its report goes to a FIFO, which
+   cannot be fsync'ed: the command does its work and then reports that error of the text-out writer.) *)
+let () = register "cligenheld" (fun _ -> obs "cligenheld err held")
+
+(* hremote kind= len=N body=HEX: the client reads what arrives: fewer bytes than announced is an error, exactly
+   the announced bytes decode as any answer does; it allocates in proportion to what arrived *)
+let () =
+  register "hremote" (fun tk ->
+    let kv = kv_of tk in
+    let unhexs h = if h = "-" then [] else Ops_text.str_of_hex h in
+    let body = unhexs (get kv "body" "-") in
+    let announced = get kv "len" "0" in
+    let st =
+      if announced <> string_of_int (List.length body) then "err"
+      else if body = [] then "notexist"
+      else if get kv "kind" "view" = "viewraw" then (match client_view_raw body with WOk _ -> "ok" | _ -> "err")
+      else (match client_view body with WOk _ -> "ok" | _ -> "err") in
+    obs "hremote %s alloc=ok" st)
